@@ -1,6 +1,6 @@
 (** Properties_C02.v — C02: refused or failed requests never change or destroy
     stored data.  Statements only. *)
-From GW Require Import Base GoPath Fs DavServer Rfc4918 FsProofs DavRefine DavCorollaries UploadSteps UploadStepsProofs CopySteps CopyStepsProofs CopyTempProofs.
+From GW Require Import Base GoPath Fs DavServer Rfc4918 FsProofs DavRefine DavCorollaries UploadSteps UploadStepsProofs CopySteps CopyStepsProofs CopyTempProofs MoveSteps MoveStepsProofs.
 Local Open Scope list_scope.
 
 (** Whenever the answer is 4xx or 5xx the whole modelled file system — names,
@@ -104,3 +104,41 @@ Theorem C02_copy_fault_restores : forall s dstp tmpp st n rec k,
   snd (copy_via_temp s dstp tmpp st n rec (Some k)) = false.
 Proof. exact copy_fault_restores. Qed.
 Print Assumptions C02_copy_fault_restores.
+
+(** * MOVE, OS call by OS call
+
+    LocalFileSystem.Move is, after its read-only checks, [os.RemoveAll(dst)] when there is a
+    destination and then [os.Rename(src, dst)] ([MoveSteps.move_steps]).  Without a fault
+    the sequence is the one step of [serve]. *)
+Theorem C02_move_is_steps : forall root sb r dst ow ss n ds created sb',
+  copy_move_checks root sb (rpath r) dst ow = GOk (ss, n, ds, created) ->
+  seto (remo (remo sb (hp root ds)) (hp root ss)) (hp root ds) n = Some sb' ->
+  move_steps sb (hp root ss) (hp root ds) false = (Some sb', true) /\
+  fst (do_move root sb r dst ow) = Some sb'.
+Proof. exact move_is_steps. Qed.
+Print Assumptions C02_move_is_steps.
+
+(** A rename the OS refuses (EPERM / EACCES on the source's directory, EXDEV, EBUSY) onto
+    a name that is new leaves the EQUAL tree. *)
+Theorem C02_move_fault_new_destination : forall s sp dp,
+  geto s dp = None -> move_steps s sp dp true = (s, false).
+Proof. exact move_fault_new_destination. Qed.
+Print Assumptions C02_move_fault_new_destination.
+
+(** Onto an existing destination it leaves the tree without that destination: exactly
+    what the rfault stage observes in the real handler. *)
+Theorem C02_move_fault_existing_destination : forall s sp dp,
+  exists_ (geto s dp) = true -> move_steps s sp dp true = (remo s dp, false).
+Proof. exact move_fault_existing_destination. Qed.
+Print Assumptions C02_move_fault_existing_destination.
+
+(** So the property's statement is false of the faithful model of that sequence under
+    that fault (known finding C02 move-rename-fault; replayed on the real handler by the
+    rfault stage): the checks pass, Move reports failure, a stored resource is gone. *)
+Theorem C02_move_rename_fault_refuted :
+  exists s sp dp,
+    geto s sp <> None /\ geto s dp <> None /\ is_prefix sp dp = false /\ is_prefix dp sp = false /\
+    is_dir (geto s (parent dp)) = true /\
+    snd (move_steps s sp dp true) = false /\ fst (move_steps s sp dp true) <> s.
+Proof. exact move_rename_fault_loses_destination. Qed.
+Print Assumptions C02_move_rename_fault_refuted.
